@@ -52,3 +52,20 @@ print("5. INT96 beyond the datetime64[ns] range (3000-01-01 = Julian day 2816788
 se = pt.SchemaElement(name="x", type=pt.Type.INT96)
 a = np.zeros(2, dtype=[("ns", "i8"), ("day", "i4")]); a["day"] = [2816788, 2440588 + 106752]
 print("   convert =", ct.convert(a.view("S12"), se))
+
+print("6. converts_inplace(DATE / TIME_MILLIS) is True: the DELTA_BINARY_PACKED branch of read_data_page_v2 (core.py L413-419) decodes INT32 straight into the 8-byte output")
+import fastparquet.cencoding as encoding          # as core.py imports it
+from spec import pqwrite
+for cvname, dt in (("DATE", "M8[ns]"), ("TIME_MILLIS", "m8[ms]")):
+    se = pt.SchemaElement(name="x", type=pt.Type.INT32, converted_type=getattr(pt.ConvertedType, cvname))
+    vals = [18262, 18263, 18264, 18270]
+    raw = np.frombuffer(pqwrite.delta_encode(vals, bits=32), dtype="uint8")
+    assign = np.zeros(len(vals), dtype=ct.typemap(se))
+    print(f"   {cvname}: converts_inplace =", ct.converts_inplace(se), " typemap =", ct.typemap(se), end="  ")
+    try:
+        # the statements of the branch, verbatim
+        encoding.delta_binary_unpack(encoding.NumpyIO(raw), encoding.NumpyIO(assign.view('uint8')))
+        ct.convert(assign, se)
+        print("output =", assign, " (values", vals, ")")
+    except Exception as ex:
+        print("raises", type(ex).__name__, str(ex)[:90], "| output array so far:", assign.view("i8").tolist())
